@@ -203,3 +203,5 @@ def run(eng, rep):
     rule_zero_step(eng, rep)
     rule_geometry_frames(eng, rep)
     rule_totality(eng, rep, rule="C13-4.totality-every-loop-is-bounded")
+    from .mirrorrule import rule_mirror
+    rule_mirror(eng, rep, 'C13-5.lower-and-upper-face-handling-are-reflections', ['trust_region.trsbox_linear'])
